@@ -373,27 +373,37 @@ func postVacuous(rr *RunResult, r *OblResult) bool {
 	if i < 0 {
 		return true
 	}
+	// positive evidence on the same path
 	pre := postKey[:i] + "/pre" + postKey[i+5:]
-	allPreUnsat, anyPre := true, false
 	for _, j := range rr.ByKey[pre] {
-		anyPre = true
-		st := rr.Results[j].R.Status
-		if st != "unsat" {
-			allPreUnsat = false
-		}
-		if st == "sat" && rr.Results[j].O.Path == r.O.Path {
+		if rr.Results[j].R.Status == "sat" && rr.Results[j].O.Path == r.O.Path {
 			return true
+		}
+	}
+	// otherwise: the call site as a whole (every path, whatever the running number of the canary on that path)
+	postPrefix, prePrefix := postKey[:i]+"/post", postKey[:i]+"/pre"
+	allPreUnsat, anyPre, allPostUnsat := true, false, true
+	for k, idxs := range rr.ByKey {
+		isPost, isPre := strings.HasPrefix(k, postPrefix), strings.HasPrefix(k, prePrefix)
+		if !isPost && !isPre {
+			continue
+		}
+		for _, j := range idxs {
+			st := rr.Results[j].R.Status
+			if isPre {
+				anyPre = true
+				if st != "unsat" {
+					allPreUnsat = false
+				}
+			} else if st != "unsat" {
+				allPostUnsat = false
+			}
 		}
 	}
 	if anyPre && allPreUnsat {
 		return false
 	}
-	for _, j := range rr.ByKey[postKey] {
-		if rr.Results[j].R.Status != "unsat" {
-			return false
-		}
-	}
-	return true
+	return allPostUnsat
 }
 
 func preUnsat(rr *RunResult, postKey string) bool {
